@@ -159,12 +159,12 @@ class EncodeState:
                     EncodeError)
                 internal_value = int(internal_value)
 
-            if bit_length > 0 and base_type_encoding in (None, Encoding.ONEC, Encoding.TWOC,
-                                                        Encoding.SM):
+            if base_type_encoding in (None, Encoding.ONEC, Encoding.TWOC, Encoding.SM):
                 # the sign bit is not available for the magnitude
-                max_value = (1 << (bit_length - 1)) - 1
+                # (without any bit, zero is the only value)
+                max_value = (1 << (bit_length - 1)) - 1 if bit_length > 0 else 0
                 min_value = -max_value
-                if base_type_encoding in (None, Encoding.TWOC):
+                if bit_length > 0 and base_type_encoding in (None, Encoding.TWOC):
                     min_value -= 1
                 if internal_value < min_value or internal_value > max_value:
                     odxraise(
